@@ -18,7 +18,7 @@ rm -rf "$D"
 git -C /repo apply "$PATCH" || { echo "git apply failed"; exit 2; }
 cd /verif
 for c in "$@"; do
-  out=$(./check "$c" 2>&1); rc=$?
+  out=$(VERIF_EVIDENCE_DIR=evidence-scratch ./check "$c" 2>&1); rc=$?
   clauses=$(echo "$out" | grep -o "violation clause=[a-z-]*" | sort | uniq -c | tr '\n' ';')
   echo "check $c rc=$rc $clauses"
 done
